@@ -103,6 +103,24 @@ func cmdCheck(args []string) int {
 			fatal = append(fatal, "fixture: "+ferr.Error())
 		}
 	}
+	if *tier == "thorough" && os.Getenv("SPG_NO_CONTROLS") == "" {
+		known := map[string]bool{}
+		if kf, err := core.LoadKnown(*verif + "/known_findings.json"); err == nil {
+			for _, k := range kf {
+				if k.Status == "known" && k.Property == pr.Meta.ID {
+					known[k.Key] = true
+				}
+			}
+		}
+		ctl := runControls(pr, *repo, *verif, known)
+		tally := map[string]int{}
+		for _, c := range ctl {
+			tally[c.Status]++
+		}
+		extra["controls"] = ctl
+		extra["controls_summary"] = tally
+		fmt.Printf("controls (informational, never affect the verdict): %v\n", tally)
+	}
 	out := core.Finish(pr.Meta, *tier, seed, reports, extra, *verif, start, fatal)
 	return out.ExitCode
 }
